@@ -77,10 +77,11 @@ class TraceCsv(Trace):
 
     def set_sampling_points(self, new_indices):
         '''Updates the indices at which data is sampled'''
+        # one sample per distinct selected index, the value lookup and the
+        # timestamps must be built from the same list
+        new_indices = list(dict.fromkeys(new_indices))
         self.lookup = dict(enumerate(new_indices))
-        new_timestamps = [self.all_timestamps[i] for i in new_indices]
-        self.timestamps = list(dict.fromkeys(new_timestamps))
-        self.timestamps = dict(enumerate(self.timestamps))
+        self.timestamps = dict(enumerate(self.all_timestamps[i] for i in new_indices))
         # stores current time stamp
         self.index = 0
         self.max_index = len(self.timestamps.keys()) - 1
